@@ -15,7 +15,7 @@ REPO = os.environ.get("CJET_REPO", "/repo")
 CACHE = os.path.join(VERIF, ".cache")
 IR2FACTS = os.path.join(VERIF, "bin", "ir2facts")
 
-FRONTEND_VERSION = "5"   # bump when the exporter, the IR pipeline or what is stored next to the facts changes
+FRONTEND_VERSION = "6"   # bump when the exporter, the IR pipeline or what is stored next to the facts changes
 
 CONFIGS = {
     "default": [],
@@ -237,7 +237,21 @@ def build_facts(config="default", repo=None, keep=False, verbose=False):
         rc, pout = _run(["clang-query-14", "-f", lq, os.path.join(VERIF, "sa", "lints", "positive.c"), "--", "-std=gnu99"])
         npos = sorted(int(l.split(":")[1]) for l in pout.splitlines() if 'note: "root" binds here' in l and "positive.c:" in l)
         rel = lambda x: os.path.relpath(x.split(":")[0], repo) + ":" + ":".join(x.split(":")[1:])
-        macro_tab["__lints__"] = {"shift": sorted(set(rel(x) for r in lres for x in r)), "shift_positive": npos}
+        lq2 = os.path.join(VERIF, "sa", "lints", "shift_var.cq")
+
+        def lint2(e):
+            rc, qout = _run(["clang-query-14", "-p", b, "-f", lq2, e["file"]], cwd=b)
+            if rc != 0:
+                return None
+            return [l.split(": note:")[0] for l in qout.splitlines() if 'note: "root" binds here' in l]
+        with ThreadPoolExecutor(max_workers=16) as ex:
+            lres2 = list(ex.map(lint2, units))
+        if any(r is None for r in lres2):
+            raise AnalysisBroken("clang-query failed on a unit")
+        rc, pout2 = _run(["clang-query-14", "-f", lq2, os.path.join(VERIF, "sa", "lints", "positive.c"), "--", "-std=gnu99"])
+        npos2 = sorted(int(l.split(":")[1]) for l in pout2.splitlines() if 'note: "root" binds here' in l and "positive.c:" in l)
+        macro_tab["__lints__"] = {"shift": sorted(set(rel(x) for r in lres for x in r)), "shift_positive": npos,
+                                  "shift_var": sorted(set(rel(x) for r in lres2 for x in r)), "shift_var_positive": npos2}
         linked = os.path.join(scratch, "all.bc")
         rc, log = _run(["llvm-link-14", "-o", linked] + [j[1] for j in jobs])
         if rc != 0:
